@@ -164,13 +164,13 @@ func run(c *mc.Ctx, u mc.Unit) {
 		}
 	}
 	if err := w.LoadL1(ctx, st, world.Seed64(p.Ops)%2 == 1); err != nil {
-		c.Failf("world-sanity/l1-store-rejects-block", "%s: %v", scen, err)
+		c.Failf(world.LoadKey(err, "world-sanity/l1-store-rejects-block"), "%s: %v", scen, err)
 		return
 	}
 	gerStoreStuck := false
 	for _, b := range w.L2Blocks {
 		if err := w.LoadL2Block(ctx, st, b); err != nil {
-			c.Failf("world-sanity/l2-store-rejects-block", "%s: %v", scen, err)
+			c.Failf(world.LoadKey(err, "world-sanity/l2-store-rejects-block"), "%s: %v", scen, err)
 			return
 		}
 		// The injected-GER store's table has block_num as its primary key: it cannot record two
